@@ -553,7 +553,7 @@ pub fn run(args: &Args) -> i32 {
     // answer is glued onto a line of the search thread is a command that was "silently discarded"
     // from the GUI's point of view. A torn line is a definite violation; its absence only samples
     // the OS scheduling of the two threads.
-    let flood_rounds = if thorough { 20 } else { 5 };
+    let flood_rounds = if thorough { 100 } else { 24 };
     let mut flood_lines = 0u64;
     for round in 0..flood_rounds {
         match super::procprops::flood_round() {
